@@ -186,7 +186,23 @@ class Tracker:
                                 v2 = self.var_of(g, a)
                                 if v2 is not None and v2 != "M":
                                     first.setdefault(v2, ("other", s2))
+                    # the member iterator through 'this': the first call of the closure that needs it checked, unless one that checks it comes first
+                    if self.member:
+                        for s2 in sorted(g.stmts):
+                            m2 = g.stmts[s2]
+                            if m2["k"] == "CXXOperatorCallExpr" and m2.get("op") in ("*", "->") and m2.get("args") and self.var_of(g, m2["args"][0]) == "M":
+                                first.setdefault("M", ("deref", s2))
+                            elif m2["k"] == "CXXMemberCallExpr":
+                                ent = (self.summ.get((m2.get("callee") or "", tuple(m2.get("calleeParamTypes") or []))) or {}).get("M")
+                                if ent is not None and ent[0]:
+                                    first.setdefault("M", ("deref", s2))
+                                elif ent is not None and "C" in ent[1:]:
+                                    first.setdefault("M", ("other", s2))
                     for v2, (what, s2) in first.items():
+                        if v2 == "M":
+                            if what == "deref":
+                                need_checked(st, "M", sid, "dereferenced in the closure called here (%s)" % g.short_loc(s2).rsplit("/", 1)[-1])
+                            continue
                         if what == "deref" and (v2 in tp or any(m3["k"] == "DeclRefExpr" and m3.get("declId") == v2 for m3 in f.stmts.values())):
                             need_checked(st, v2, sid, "dereferenced in the closure called here (%s)" % g.short_loc(s2).rsplit("/", 1)[-1])
             # modification
